@@ -345,7 +345,7 @@ func c24Run(r *simkit.Run) {
 
 	r.Sched(simkit.SchedOpts{MaxSteps: 20000, Stick: r.DrawStick()})
 
-	if r.Live() > 0 {
+	if r.Unfinished() {
 		r.Fail("liveness", "pool", "clients did not finish")
 	}
 
